@@ -11,6 +11,7 @@ from ..facts import Facts, fact_texts
 from ..model import AnalysisError, src, walk_own
 from .. import oracles
 from .c04 import BINDING
+from ..absnodes import public_value
 
 R = 'python_minifier.rename.'
 MAPPER = R + 'mapper'
@@ -238,7 +239,7 @@ def binder_places(model, mod, name_node):
         raise AnalysisError('UNDECIDED: NameBinder.visit_Name on a walrus target -> %s' % [r[0] for r in res])
     for o in walk(mod):
         for b in o.attrs.get('bindings', []) if isinstance(o.attrs.get('bindings'), list) else []:
-            if isinstance(b, Obj) and b.attrs.get('_name') == name_node.attrs['id']:
+            if isinstance(b, Obj) and public_value(model, b, 'name') == name_node.attrs['id']:
                 return ns_path(o) if o.cls != 'Module' else ()
     return None
 
@@ -589,7 +590,7 @@ def resolve_rule(model, rep):
         for sc in scopes:
             for b in sc.attrs['bindings']:
                 if isinstance(b, Obj):
-                    for r in b.attrs.get('_references', []):
+                    for r in public_value(model, b, 'references'):
                         owner[id(r)] = (sc, b)
         # every Name node whose id starts with u_
         for node in walk(mod):
@@ -619,7 +620,7 @@ def resolve_rule(model, rep):
                 # The repository files a name that a class body both binds and reads under the module as an unresolved, pinned name
                 # (class-body loads compile to LOAD_NAME and may see either the class attribute or a global). That is conservative as
                 # long as the binding cannot be renamed.
-                pinned = b.attrs.get('_allow_rename') is False
+                pinned = public_value(model, b, 'allow_rename') is False
                 rep.check(pinned, 'C03.RESOLVE', 'src/python_minifier/rename/resolve_names.py', '%s: %s (%s) in class scope %s -> pinned binding in %s' % (pname, name, ctx, '/'.join(use_path), '/'.join(got) or 'module'),
                           'class-level name kept out of renaming', 'a name bound in a class body is attached to a renamable binding in %s' % ('/'.join(got) or 'module'),
                           key='C03.RESOLVE|%s|%s|%s|%s' % (pname, name, ctx, '/'.join(use_path)))
